@@ -40,6 +40,7 @@ def run(ch: Checker) -> None:
                       '(the base reaches self.connection.close()) whenever the connection is not closed yet -- anything it does first (TLS unwrap, logging) must not be able to skip it', 1)
     ch.rule('C10.1', 'lifecycle: Threadless._cleanup attempts `del self.works[id]` (and os.close(id) with a work-queue fd) on every path, exception edges included, after shutdown(); '
                      'HttpProtocolHandler.run attempts shutdown() and selector.close() on every path', 4)
+    ch.rule('C10.16', 'a TLS wrapper owns the descriptor as soon as it exists: every function that wraps a connection stores the wrapper into <connection>._conn in the statement that creates it, or before any other call is made on it (handshake, timeout) -- so whatever raises next, shutdown() closes it', 2)
     ch.rule('C10.2', 'registration pairing: each selector.register/modify in _update_work_events is followed at once by the store into registered_events_by_work_ids[work_id][fileno]; '
                      '_cleanup unregisters the recorded descriptors before shutdown(); threaded _run_once/_flush unregister in finally', 5)
     ch.rule('C10.3', 'owning field: a store of a new TcpServerConnection into an `upstream` field is reachable only from once-per-connection entry points, or is guarded by '
@@ -338,6 +339,49 @@ def run(ch: Checker) -> None:
             if f.get('self.closed') is not False or not sets:
                 ok5 = False
     ch.check(ok5 and n5 > 0, 'C10.5', close, 'idempotent close', 'socket closed once, flag set', 'TcpConnection.close may close the socket twice or does not record that it closed it')
+
+    # ---------------- C10.16 a freshly wrapped socket is published before anything else is done with it
+    n16 = 0
+    for fn16 in prog.all_functions('proxy'):
+        if fn16.module.name.startswith(('proxy.plugin', 'proxy.testing', 'proxy.http.client', 'proxy.http.websocket.client')):
+            continue
+        if not any(isinstance(c, ast.Call) and (attr_chain(c.func) or '').split('.')[-1] == 'wrap_socket' for c in walk_no_nested(fn16.node)):
+            continue
+        g16 = cfg_of(fn16, prog, exc_edges=False)
+        bad16 = None
+        sites16 = 0
+        for p in fpaths(g16, limit=100000):
+            if p.coarse:
+                continue
+            stmts = p.stmts()
+            for k, (i, st) in enumerate(stmts):
+                if not (isinstance(st, (ast.Assign, ast.AnnAssign)) and any(isinstance(c, ast.Call) and (attr_chain(c.func) or '').split('.')[-1] == 'wrap_socket' for c in walk_no_nested(st))):
+                    continue
+                tgs = st.targets if isinstance(st, ast.Assign) else [st.target]
+                if any((attr_chain(t_) or '').endswith('._conn') for t_ in tgs):
+                    sites16 += 1
+                    continue                    # created and published by one statement
+                local = tgs[0].id if isinstance(tgs[0], ast.Name) else None
+                if local is None:
+                    continue
+                pub = next((k2 for k2 in range(k + 1, len(stmts)) if isinstance(stmts[k2][1], (ast.Assign, ast.AnnAssign)) and
+                            any((attr_chain(t_) or '').endswith('._conn') for t_ in (stmts[k2][1].targets if isinstance(stmts[k2][1], ast.Assign) else [stmts[k2][1].target])) and
+                            isinstance(stmts[k2][1].value, ast.Name) and stmts[k2][1].value.id == local), None)
+                if pub is None:
+                    continue                    # handed back to the caller: the caller's statement is judged
+                sites16 += 1
+                between = [c for k2 in range(k + 1, pub) for c in walk_no_nested(stmts[k2][1]) if isinstance(c, ast.Call) and not (attr_chain(c.func) or '').startswith('logger.')]
+                if between:
+                    bad16 = ('between wrap_socket() and the store into %s the new socket is used (%s): the wrapper owns the descriptor from the moment it exists (the plain socket was detached), and while it is '
+                             'only held by a local nothing the teardown knows of can close it -- if that call raises (a failed or timed-out handshake, a reset) the connection is forgotten with its descriptor '
+                             'open and the peer sees neither FIN nor RST' % (norm(stmts[pub][1].targets[0] if isinstance(stmts[pub][1], ast.Assign) else stmts[pub][1].target), norm(between[0])[:50]), p.describe(12))
+        if sites16:
+            n16 += 1
+            ch.check(bad16 is None, 'C10.16', fn16, 'wrapped socket published at once', 'the TLS wrapper is stored where shutdown() finds it by the statement that creates it or the next one',
+                     bad16[0] if bad16 else '', witness=bad16[1] if bad16 else None)
+    if n16 < 2:
+        raise AnalysisError('anchor vanished: fewer than two functions wrap a socket and store it into ._conn')
+
 
 
 def _loop_reached(g: Any, itername: str) -> Tuple[int, Optional[Tuple[str, List[str]]]]:
